@@ -132,6 +132,56 @@ pub fn check_pos(ctx: &mut Ctx, p: &Pos, b: &Board) {
     }
 }
 
+/// Appending into a caller-supplied move list through the safe `_into` interface until it is
+/// full: the overflow must be refused by the checked capacity test (a panic that names the
+/// capacity error), never reach the unchecked path (arrayvec's debug assertion) and never leave
+/// more elements than the capacity.
+fn append_until_full(ctx: &mut Ctx, p: &Pos) {
+    use owlchess::movegen::MoveList;
+    let Some(b) = board_of(p) else { return };
+    ctx.states += 1;
+    let per = p.pseudo_vec().len();
+    if per == 0 {
+        return;
+    }
+    let case = || case_pos(p, "append until full");
+    let mut list = Box::new(MoveList::new());
+    let mut rounds = 0;
+    loop {
+        let before = list.len();
+        let r = guarded(|| semilegal::gen_all_into(&b, &mut *list));
+        ctx.transitions += 1;
+        rounds += 1;
+        match r {
+            Ok(()) => {
+                if list.len() != before + per {
+                    ctx.violate(case(), format!("gen_all_into appended {} moves, expected {}", list.len() - before, per));
+                    return;
+                }
+                if list.len() > 256 {
+                    ctx.violate(case(), format!("move list holds {} elements, more than its capacity of 256 (write past the buffer)", list.len()));
+                    return;
+                }
+            }
+            Err(msg) => {
+                // refusal: must be the checked capacity error, raised before anything is written out of bounds
+                if msg.contains("len < Self::CAPACITY") || msg.contains("unsafe precondition") {
+                    ctx.violate(case(), format!("overflowing a caller-supplied MoveList reached the UNCHECKED push (monitor: {})", msg));
+                } else if before + per <= 256 {
+                    ctx.violate(case(), format!("gen_all_into panicked although {} + {} moves fit: {}", before, per, msg));
+                }
+                if list.len() > 256 {
+                    ctx.violate(case(), format!("move list holds {} elements after a refused append", list.len()));
+                }
+                return;
+            }
+        }
+        if rounds > 300 {
+            return;
+        }
+    }
+}
+
 /// (a) every index computation over its whole input domain
 fn table_indices(ctx: &mut Ctx) {
     // magic lookups: every square x every subset of the geometric ray set (the index depends on
@@ -287,6 +337,14 @@ pub fn run(run: &mut Run) {
     };
     run_universes(run, &sel, DISAGREE, &check_pos);
     maxmob(run, thorough);
+    {
+        let seeds = crate::universe::seeds();
+        run.seq("APPEND: gen_all_into into one caller-supplied MoveList until it is full (22 seeds)", |ctx| {
+            for p in &seeds {
+                append_until_full(ctx, p);
+            }
+        });
+    }
     spawn_release_leg(run, "release-configuration leg (same sweep, optimised build)");
 }
 
@@ -298,6 +356,12 @@ pub fn leg(run: &mut Run) {
     let sel = Sel { m3: true, ray: Some(2), ep: Some(false), ep_spread_only: true, castle: Some(false), promo: Some(false), reach: Some(3), ..Default::default() };
     run_universes(run, &sel, DISAGREE, &check_pos);
     maxmob(run, thorough);
+    let seeds = crate::universe::seeds();
+    run.seq("APPEND: gen_all_into into one caller-supplied MoveList until it is full (22 seeds)", |ctx| {
+        for p in &seeds {
+            append_until_full(ctx, p);
+        }
+    });
 }
 
 pub fn replay(case: &Value, ctx: &mut Ctx) {
@@ -312,6 +376,14 @@ pub fn replay(case: &Value, ctx: &mut Ctx) {
                 }
             }
         }
-        _ => replay_pos(case, ctx, &check_pos),
+        _ => {
+            if case["what"].as_str() == Some("append until full") {
+                if let Some(p) = pos_of_case(case) {
+                    append_until_full(ctx, &p);
+                }
+                return;
+            }
+            replay_pos(case, ctx, &check_pos)
+        }
     }
 }
